@@ -43,6 +43,16 @@ RULE = ("exhaustive small universe (coefficients in {-1,0,1,2}, lb<=3, la<=3) pl
         "ZeroDivisionError branch), memory and zero omitted / keyword / positional, memory as thub / callable returning a Stream / "
         "callable object / partial / endless Stream, zero spelled int / bool / float / Fraction / complex, Gaussian-integer / "
         "dyadic-complex / Fraction / int samples, inputs incl. thub and endless iterators consumed with take(n); "
+        "+ round 4: complex HISTORIES (entry ghist: the history templates over Q(i), Gaussian-integer coefficients / samples / "
+        "memories, complex twins c+0j of int / float / Fraction filters called in both orders) and complex CASCADES (entry gcascade); "
+        "dense-list T3 (entry gcompile: every special spelling in every position of b, a[1:], a[0], all zero spellings of the all-zero "
+        "filter); family gain: a[0] of every spelling other than +-1 (int, negative, huge, integer-valued / other Fraction, float; "
+        "over Q(i) also bool and complex) x exact samples (Fractions with odd denominators, huge integers), compared with tolerance 0 "
+        "whenever the coefficients are integers, + the SPELLING of the divisor literal in the source; family free: all-zero numerators "
+        "(none / [] / 0 / 0.0 / 0j / False / Fraction(0), 0..3 of them) x denominators of order 1..3 x memory kinds x non-null zero "
+        "values, output compared with the free response; family memread: iterator memories (counting iterator, generator, iter(list), "
+        "Stream; lengths 0..lm+3 and endless) on orders 0..4, observed right after the call (items pulled, next items), callable "
+        "memories log what they are asked; "
         "a case is non-trivial when the impl yields at least one sample or raises; distinct = distinct JSON case")
 TRUSTED = [
     "hand-written Lean model ALV/Model/C04.lean of LinearFilter.__init__/__call__ (modelled, not verified: Poly "
@@ -71,6 +81,12 @@ TRUSTED = [
     "folds python's printed complex constants ('(1+2j)', '(-0-1j)', '--1j') exactly; modelled, not verified: Poly(number) = "
     "{0: number}, Poly(None) = {}, ZFilter(filt, c) multiplies the numerator by 1/c (1/0 raises at construction); an endless "
     "input is observed through a counting iterator (pulled items = outputs taken: one_output_per_input + prefix_causal)",
+    "round 4: how an ITERATOR memory is read is modelled (ALV/Model/C04Mem.lean: `readMem` = the takewhile / enumerate "
+    "comprehension over an iterator seen as what it will still deliver; memory_iterator_reads: lm items kept, min(lm+1, len) pulled, "
+    "rest = drop (lm+1)) and tied: the caller's iterator is observed right after the call; modelled, not verified: an iterator is "
+    "determined by the items it will deliver, containers (list / tuple / deque) are not affected by enumerate(); the spelling of the "
+    "gain literal in the generated source (int / float / p/q / complex: python's str.format of the coefficient object) is checked "
+    "by the harness against the type of a[0] in the case - the Lean model has field elements, not python types",
     "long cases: the Lean driver does not execute the generated loop statement by statement (O(order^2) per sample) "
     "but answers with specCall, equal to the model by theorem filterCall_eq_specCall; the generated source of every "
     "long case is still compared structurally (T3)",
@@ -97,7 +113,12 @@ MANIFEST = {
                  "lengths; constructor arguments to outputs end to end; histories of lazily consumed streams over a "
                  "heap of caller objects) + translator tie T3 (captured source vs Lean compile, structural) + exact "
                  "I/O differential (single calls, long orders / inputs, histories in isolated processes)",
-    "note": "47 theorems, no pending statement; round 3: special cases of the string building proved neutral for every field "
+    "note": "68 theorems, no pending statement, every definition the driver runs is in a theorem statement (105/105); round 4: "
+            "constructor argument kinds denote the documented polynomial (coefArg_denotes), ZFilter(filt, c) = filt / c (castDiv_is_division), "
+            "the gain is applied by division (gain_is_division; over a field = times the inverse, so only T3 + the exact regime pin the "
+            "operator: gain_division_value), the trivial generator iff numerator AND feedback are zero (const_loop_iff) and the free "
+            "response otherwise (zero_numerator_free_response), iterator memories read lm+1 items (memory_iterator_reads), complex "
+            "histories / cascades (gauss_hist_model_eq_spec, gauss_cascade_model_eq_spec); round 3: special cases of the string building proved neutral for every field "
             "element (special_cases_neutral, term_value, unit_test_sound_iff), executable Q(i) instance tied to the real "
             "code with complex coefficients (gcall), call / constructor shapes with defaults (filterCallD_eq_specCallD), "
             "a[0] == 0 branch (callRaw_eq_specCallRaw); D4 (Fraction gain formatted as '(expr) / p/q') fixed in /repo "
@@ -123,6 +144,8 @@ def genc(y):
 
 
 def tag(v):
+    if isinstance(v, (bool, complex)):
+        return X.tag(v)
     if isinstance(v, float):
         return {"f": v}
     if isinstance(v, Fraction):
@@ -138,7 +161,7 @@ def exact(j):
 
 
 def is_float(j):
-    return isinstance(j, dict)
+    return isinstance(j, dict) and "f" in j
 
 
 def is_nonint_frac(j):
@@ -358,6 +381,7 @@ def parse_source(src):
 # ---------------------------------------------------------------------------------------------
 # the real code
 # ---------------------------------------------------------------------------------------------
+ENDLESS = X.ENDLESS
 ITER_FLAVOURS = ("gen", "iter", "stream", "counting")      # memories that are ITERATORS: reading them is observable
 
 
@@ -396,8 +420,8 @@ def _mem_obj(m, log=None):
     if k == "gen":
         base, step = val(m["base"]), val(m["step"])
         if m.get("as") == "counting":
-            return X._Counting(base + i * step for i in itertools.count())
-        return (base + i * step for i in itertools.count())
+            return X._Counting(base + i * step for i in range(ENDLESS))
+        return (base + i * step for i in range(ENDLESS))
     form = m["form"]
 
     def note(n, r):
@@ -1516,6 +1540,8 @@ def tally(eng, c, io):
 # shrinking / neighbours
 # ---------------------------------------------------------------------------------------------
 def _simplify_num(j):
+    if isinstance(j, dict) and "f" not in j:          # complex / bool tags (entry gcascade)
+        return X._simpler(j)
     v = val(j)
     outs = []
     if is_float(j):
@@ -1755,6 +1781,8 @@ _SELFTEST_EDITS = [
     ("    m2 = m1\n    m1 = m0", "    m1 = m0\n    m2 = m1"), ("    d3 = d2\n", ""), ("d1 = d0", "d1 = d1"),
     ("--5/2", "-5/2"), ("m1 , m2 , = memory", "m2 , m1 , = memory"), ("d1 = d2 = d3 = zero", "d1 = d2 = zero"),
     ("(d0 + ", "-(d0 + "), ("yield m0", "yield d0"), ("1/3", "1/4"),
+    # the gain is applied by DIVISION: a reciprocal multiplication is another program (exact samples would be rounded)
+    (") / 2", ") * 0.5"), (") / 2", ") * (1/2)"), ("m0 = (d0", "m0 = 0.5 * (d0"), (") / 2", ") // 2"),
 ]
 
 
@@ -1797,6 +1825,12 @@ def extra_checks(eng):
         if parse_source(_SELFTEST_SRC.replace(old, new, 1)) == _SELFTEST_IR:
             blind.append((old, new))
     yield ("T3-parser-sees-seeded-edits(%d)" % len(_SELFTEST_EDITS), not blind, "edits not seen: %r" % (blind,))
+    lits = [("(2)", "int"), ("(-3)", "int"), ("(2.0)", "float"), ("(-5/2)", "frac"), ("((1+2j))", "complex"), ("(1e+30)", "float"),
+            ("(1000000000000000000000000000000)", "int")]
+    bad = [(l, gain_literal(_SELFTEST_SRC.replace(") / 2", ") / " + l))) for l, k in lits
+           if gain_literal(_SELFTEST_SRC.replace(") / 2", ") / " + l)) != k]
+    yield ("T3-gain-literal-spelling(%d)" % len(lits), not bad and gain_literal(_SELFTEST_SRC.replace(") / 2", ") * 0.5")) is None,
+           "misread: %r" % (bad,))
     neg = parse_source("def gen(seq, memory, zero):\n  for d0 in seq:\n    m0 = -(d0)\n    yield m0")
     pos = parse_source("def gen(seq, memory, zero):\n  for d0 in seq:\n    m0 = -d0\n    yield m0")
     yield ("T3-parser-separates-gain-minus-from-atom-minus",
